@@ -125,6 +125,9 @@ pub struct SimChain {
     stores: Vec<MemStore<packed::HeaderDigest>>,
     children: Vec<Vec<usize>>,
     nonce_seed: RefCell<u128>,
+    /// epoch from which on headers commit to the chain root of their parent (RFC 44 activation): a block whose
+    /// epoch is not after (this epoch, index 0) carries no extension.  0 = from the first block on.
+    pub mmr_activated_epoch: u64,
 }
 
 struct CellLookup<'a> {
@@ -200,6 +203,7 @@ impl SimChain {
             stores: vec![MemStore::default()],
             children: vec![Vec::new()],
             nonce_seed: RefCell::new(1),
+            mmr_activated_epoch: 0,
         };
         let mut tx_ids = Vec::new();
         for (i, tx) in genesis.transactions().into_iter().enumerate() {
@@ -356,6 +360,12 @@ impl SimChain {
             junk[..8].copy_from_slice(&(id as u64).to_le_bytes());
             Bytes::from(junk.to_vec()).pack()
         };
+        // before the activation (the first block of the activation epoch included) a header has no chain root
+        let has_chain_root = {
+            let e = EpochNumberWithFraction::new(wb.epoch.0, wb.epoch.1, wb.epoch.2);
+            e > EpochNumberWithFraction::new(self.mmr_activated_epoch, 0, 1)
+        };
+        let ext_opt: Option<packed::Bytes> = if has_chain_root { Some(ext.clone()) } else { None };
         let compact = difficulty_to_compact(U256::from(wb.diff.max(1)));
         let diff = compact_to_difficulty(compact);
         let epoch = EpochNumberWithFraction::new(wb.epoch.0, wb.epoch.1, wb.epoch.2);
@@ -426,7 +436,7 @@ impl SimChain {
             .compact_target(compact.pack())
             .timestamp(timestamp.pack())
             .transactions(tx_views.clone())
-            .extension(Some(ext.clone()))
+            .extension(ext_opt.clone())
             .build();
         let block = self.seal(block0, wb.pow);
         let header = block.header();
@@ -470,14 +480,14 @@ impl SimChain {
             diff,
             header,
             uncles_hash: block.calc_uncles_hash(),
-            extension: Some(ext),
+            extension: ext_opt,
             parent_chain_root,
             block,
             filter,
             filter_hash,
             tx_ids,
             pow: wb.pow || self.pow == "dummy",
-            root: wb.root,
+            root: wb.root || !has_chain_root,
         });
         id
     }
